@@ -10,7 +10,7 @@ import glob, hashlib, json, os, random, re, shutil, subprocess, sys, time
 from concurrent.futures import ThreadPoolExecutor
 
 ROOT = os.path.dirname(os.path.dirname(os.path.abspath(__file__)))
-FM = "/repo/formal-models"
+FM = os.path.join(os.environ.get("VERIF_REPO") or "/repo", "formal-models")
 MODELS = [
     # key, relative path, invariants, constraint, extra constants
     ("dbft", "dbft/dbft.tla", ["TypeOK", "InvTwoBlocksAccepted", "InvFaultNodesCount"], "MaxViewConstraint", {}),
